@@ -1,9 +1,11 @@
 CONSTANTS
+  Modes = {"single", "multi"}
   Kinds = {"struct", "newtype_struct", "unit_struct", "unit_enum", "tagged_enum", "alias", "const"}
   Annotations = {"none", "plain", "path", "args"}
   Nestings = {"top", "mod1", "mod2", "fn_body"}
   SkipSets = {"none", "first", "last", "first_last"}
   SkipSpellings = {"serde_skip", "typeshare_skip", "serde_after_kv"}
+
 INIT Init
 NEXT Next
 INVARIANT Emit
